@@ -61,6 +61,7 @@ MODELS = [
         [mf_.parse_item(x[2]) for mf_ in e.mirs for x in mf_.find(c.split("::")[-1]) if "constructs" in x[0]][0], a)),
     (r"^(\w+::)*(create_word_from_version|create_version_from_word|is_type_identical)$",
      lambda e, s, f, c, a, o: sym.Inline(e.resolve_fn(c.split("::")[-1]), a)),
+    (r"^(\w+::)*is_[a-z_]+$", lambda e, s, f, c, a, o: sym.Inline(e.resolve_fn(c.split("::")[-1]), a)),   # grammar::reflect predicates, from their MIR
     (r"^core::num::<impl u32>::from_le_bytes$", lambda e, s, f, c, a, o: z3.Concat(*reversed([x for x in a[0].items]))),
     (r"^core::num::<impl u32>::to_le_bytes$", lambda e, s, f, c, a, o: sym.Arr([z3.Extract(8 * i + 7, 8 * i, a[0]) for i in range(4)])),
 ]
@@ -252,6 +253,11 @@ def run(ctx):
                     scen = "builder_step_%d_%d_%d_%d_g%d" % (nf, nb0, nb1, ni, grp)
                     real = rp.ask("scenario %s %s" % (scen, raw.hex()))
                     code = real.get("code")
+                    if not ("panic" in real or (code is not None and code >= 100)) and ni:
+                        # the model's instructions are opaque; the native state had blocks of OpNop: try blocks ending in a terminator
+                        raw = bytes([raw[0] | 4]) + raw[1:]
+                        real = rp.ask("scenario %s %s" % (scen, raw.hex()))
+                        code = real.get("code")
                     if "panic" in real or (code is not None and code >= 100):
                         import kani
                         what = "panic: %s (%s)" % (real.get("panic"), real.get("at")) if "panic" in real else kani.code_names().get(code, str(code))
